@@ -1,5 +1,6 @@
 import Nsq.Proofs.RegistryQuery
 import Nsq.Proofs.RegistryProto
+import Nsq.Proofs.RegistrySched
 import Nsq.Tie.Registry
 /-!
 # C14 — nsqlookupd answers reflect exactly the live registrations
@@ -355,12 +356,17 @@ theorem admin_delete_topic (r : Registry) (t : Name) (ht : t ≠ star) :
 
 The theorems above treat one handler call as one step. In the code each `RegistrationDB` method
 is one critical section; before commit 994e31e (F12) UNREGISTER's remove-then-prune was two sections
-(`unregister_is_two_sections` describes that OLD code; `RemoveProducerAndPrune` made it one), and
-REGISTER, `/topic/delete`, `/channel/create` still are several sections each. The decompositions are
+(`unregister_is_two_sections` describes that OLD code; `RemoveProducerAndPrune` made it one), and before
+commit 0d24920 (F21) REGISTER, `/topic/delete`, `/channel/create` were several sections each
+(`register_is_two_sections`, `deleteTopic_is_two_sections` describe that OLD code). The decompositions are
 exact (`…_is_two_sections`), and two interleavings end in a state that NO serial order of the
-two calls reaches — i.e. "exactly what a plain registry predicts" is false for overlapping
-calls (known findings `race:unregister-gc-vs-register`, `race:register-vs-topic-delete`,
-reproduced on the real daemon by harness/e4 `TestVerifE4Races`). -/
+two calls reaches — i.e. "exactly what a plain registry predicts" was false for overlapping
+calls (findings `race:unregister-gc-vs-register`, `race:register-vs-topic-delete`, both FIXED; replayed on
+the real daemon by harness/e4 `TestVerifE4Races` on every run). Which shape the CURRENT tree has is not a
+constant of this file: `Nsq.Tie.Registry.treeAtomic`, `readersAtomic`, `tombstoneAtomic` are computed from the
+regenerated facts, and the theorems `…_tree` below are stated over them (audit B12). Still open: the READERS
+`GET /lookup`, `GET /nodes` are several critical sections (audit B5; repair fixes/F37), and the tombstone marks
+are written with no lock held (audit B6; repair fixes/F38). -/
 
 theorem unregister_is_two_sections (db : DB) (p : Nat) (t c : Name) (hc : c ≠ []) :
     unregisterDB db p ⟨t, c⟩ = unregChanStep2 (unregChanStep1 db t c p).1 t c (unregChanStep1 db t c p).2 := by
@@ -414,10 +420,10 @@ theorem concurrent_register_delete_linearizable_false : ¬ concurrent_register_d
 /-! ### The repair F21 (one critical section per handler) makes both windows disappear
 
 `registerSecs` / `deleteTopicSecs` / `createChannelSecs` list the critical sections of the three
-handlers, as in the tree (`atomic = false`) and with fixes/F21_lookupd_register_delete_atomic.patch
-(`atomic = true`: `RegistrationDB.RegisterProducer`, `RemoveTopic`, `AddTopicChannel`; tie
-`register_shape`, `admin_topic_shape` accept exactly these two shapes). `interleave` enumerates
-every schedule of two concurrent handler calls. -/
+handlers, before F21 (`atomic = false`) and since commit 0d24920 = F21
+(`atomic = true`: `RegistrationDB.RegisterProducer`, `RemoveTopic`, `AddTopicChannel`; the tie
+`register_shape`, `admin_topic_shape` accepts ONLY this shape and computes `treeAtomic` from it).
+`interleave` enumerates every schedule of two concurrent handler calls. -/
 
 /-- both section lists compose to the handler of the sequential model -/
 theorem sections_compose (atomic : Bool) (db : DB) (p : Nat) (t c : Name) (hc : c ≠ []) :
@@ -485,6 +491,131 @@ theorem concurrent_schedules_linearizable_unfixed_false : ¬ concurrent_schedule
 /-- non-vacuity: the unfixed handlers have six schedules each, the fixed ones two -/
 example : (interleave (registerSecs false 1 [116] [99]) (deleteTopicSecs false [116])).length = 6 ∧
     (interleave (registerSecs true 1 [116] [99]) (deleteTopicSecs true [116])).length = 2 := by decide
+
+/-- THIS tree (audit B12): the section lists are selected by `Nsq.Tie.Registry.treeAtomic`, which is COMPUTED from the
+regenerated facts (`register_shape`, `admin_topic_shape`). With F21 reverted the facts decide `treeAtomic = false`,
+`tree_atomic` fails and so does this theorem — it does not hold "by a constant". -/
+theorem concurrent_schedules_linearizable_tree : concurrent_schedules_linearizable Nsq.Tie.Registry.treeAtomic := by
+  rw [Nsq.Tie.Registry.tree_atomic]
+  exact concurrent_schedules_linearizable_fixed
+
+/-- non-vacuity: the tree's section lists are the one-section ones, two schedules per pair -/
+example : (interleave (registerSecs Nsq.Tie.Registry.treeAtomic 1 [116] [99])
+    (deleteTopicSecs Nsq.Tie.Registry.treeAtomic [116])).length = 2 := by
+  rw [Nsq.Tie.Registry.tree_atomic]; decide
+
+/-! ### Readers (audit round 7, B5): `GET /lookup` and `GET /nodes` as lists of critical sections
+
+`lookupSecs` / `nodesSecs` (`Nsq.Model.RegistrySched`): what the reader has read so far is carried next to the
+registry. `ws` is ANY sequence of single-critical-section calls (the writers of this tree since F12/F21: REGISTER,
+UNREGISTER channel, `/topic/create|delete`, `/channel/create`, one `RemoveProducer` of a disconnect, … — in the order
+in which they took the lock). "Linearizable" = the reader's answer is the answer ONE state of that serial order
+gives: the state after the first `k` calls. -/
+
+def concurrent_lookup_linearizable (readersAtomic : Bool) : Prop :=
+  ∀ (db : DB) (ws : List Section) (t : Name),
+    ∀ s ∈ interleave (ws.map wsec) (lookupSecs readersAtomic t),
+      ∃ k, k ≤ ws.length ∧
+        runSecsO (db, LookupObs.init) s = (runSecs db ws, lookupDB (runSecs db (ws.take k)) t)
+
+/-- `ids` = the nodes section 1 of `doNodes` returns (the writers `ws` considered leave the `client` key alone) -/
+def concurrent_nodes_linearizable (readersAtomic : Bool) : Prop :=
+  ∀ (db : DB) (ws : List Section),
+    ∀ s ∈ interleave (ws.map wsec) (nodesSecs readersAtomic ((producersOf db clientKey).map (·.1))),
+      ∃ k, k ≤ ws.length ∧
+        runSecsO (db, NodesObs.init) s = (runSecs db ws, nodesDB (runSecs db (ws.take k)))
+
+/-- FALSE for the three sections of `doLookup` as they are in the tree (known finding
+`race:lookup-vs-topic-delete`): topic `t` exists with channel `c` (created together by `/channel/create`);
+schedule `lookup₁ (topic found) · /topic/delete · lookup₂ (no channels) · lookup₃`: the answer is
+`200 channels: []`, but before the deletion the answer is `200 channels: [c]` and after it `404`. -/
+theorem concurrent_lookup_delete_linearizable_false : ¬ concurrent_lookup_linearizable false := by
+  intro h
+  obtain ⟨k, hk, e⟩ := h (createChannelDB [] [116] [99]) (deleteTopicSecs true [116]) [116]
+    [lookupRead1 [116], wsec (fun db => deleteTopicDB db [116]), lookupRead2 [116], lookupRead3 [116]]
+    (by simp [interleave, interleaveF, lookupSecs, deleteTopicSecs])
+  have e2 := congrArg Prod.snd e
+  simp only [deleteTopicSecs, if_true, List.length_cons, List.length_nil] at hk
+  match k, hk with
+  | 0, _ => exact absurd e2 (by decide)
+  | 1, _ => exact absurd e2 (by decide)
+
+/-- With F37 (one `RLock` around the handler): for EVERY sequence of single-section writers and every schedule, the
+answer of `GET /lookup` is the atomic answer on the state after some prefix of the writers, and the writers are not
+disturbed. -/
+theorem concurrent_lookup_linearizable_fixed : concurrent_lookup_linearizable true := by
+  intro db ws t s hs
+  exact Nsq.Proofs.RegistrySched.atomic_reader_sees_prefix ws (fun db => lookupDB db t) db LookupObs.init s
+    (by simpa [lookupSecs] using hs)
+
+/-- the case the race leg replays: ONE writer call `w` — the answer is that of one of the two serial orders -/
+theorem concurrent_lookup_one_writer_fixed (db : DB) (w : Section) (t : Name) :
+    ∀ s ∈ interleave [wsec w] (lookupSecs true t),
+      (runSecsO (db, LookupObs.init) s).2 = lookupDB db t ∨ (runSecsO (db, LookupObs.init) s).2 = lookupDB (w db) t := by
+  intro s hs
+  obtain ⟨k, hk, e⟩ := concurrent_lookup_linearizable_fixed db [w] t s hs
+  rw [e]
+  match k, hk with
+  | 0, _ => left; rfl
+  | 1, _ => right; rfl
+
+/-- FALSE for the sections of `doNodes` as they are in the tree (known finding `race:nodes-vs-topic-delete`): nodes 1
+and 3, both registered for topic `t`; one client issues `/topic/delete?topic=t`, `REGISTER t` (node 1), `REGISTER t`
+(node 3). Schedule: clients · delete · topics(1) = [] · flags(1) · REGISTER 1 · REGISTER 3 · topics(3) = [t] · flags(3):
+`/nodes` lists `t` for node 3 but not for node 1; the states of the serial order are {1,3}, {}, {1}, {1,3}. -/
+theorem concurrent_nodes_delete_linearizable_false : ¬ concurrent_nodes_linearizable false := by
+  intro h
+  obtain ⟨k, hk, e⟩ := h
+    [(clientKey, [(1, fresh), (3, fresh)]), (topicKey [116], [(1, fresh), (3, fresh)])]
+    [fun db => deleteTopicDB db [116], fun db => registerDB db 1 ⟨[116], []⟩, fun db => registerDB db 3 ⟨[116], []⟩]
+    [nodesRead1, wsec (fun db => deleteTopicDB db [116]), nodesReadTopics 1, nodesReadFlags 1,
+     wsec (fun db => registerDB db 1 ⟨[116], []⟩), wsec (fun db => registerDB db 3 ⟨[116], []⟩),
+     nodesReadTopics 3, nodesReadFlags 3]
+    (by simp [interleave, interleaveF, nodesSecs, producersOf, mget, clientKey])
+  have e2 := congrArg Prod.snd e
+  simp only [List.length_cons, List.length_nil] at hk
+  match k, hk with
+  | 0, _ => exact absurd e2 (by decide)
+  | 1, _ => exact absurd e2 (by decide)
+  | 2, _ => exact absurd e2 (by decide)
+  | 3, _ => exact absurd e2 (by decide)
+
+/-- With F37: the answer of `GET /nodes` is the atomic answer on the state after some prefix of the writers. -/
+theorem concurrent_nodes_linearizable_fixed : concurrent_nodes_linearizable true := by
+  intro db ws s hs
+  exact Nsq.Proofs.RegistrySched.atomic_reader_sees_prefix ws nodesDB db NodesObs.init s
+    (by simpa [nodesSecs] using hs)
+
+/-- THIS tree: the readers are linearizable exactly when the regenerated facts say they are one critical section
+(`Nsq.Tie.Registry.readersAtomic`, computed; `readers_shape` accepts the tree's shape and the F37 shape only). On the
+tree as it is `readersAtomic = false`: both statements are false (findings replayed on every run); with F37 applied
+both hold. -/
+theorem concurrent_readers_linearizable_tree :
+    (concurrent_lookup_linearizable Nsq.Tie.Registry.readersAtomic ↔ Nsq.Tie.Registry.readersAtomic = true) ∧
+    (concurrent_nodes_linearizable Nsq.Tie.Registry.readersAtomic ↔ Nsq.Tie.Registry.readersAtomic = true) := by
+  generalize Nsq.Tie.Registry.readersAtomic = b
+  cases b
+  · exact ⟨⟨fun h => absurd h concurrent_lookup_delete_linearizable_false, fun h => by cases h⟩,
+           ⟨fun h => absurd h concurrent_nodes_delete_linearizable_false, fun h => by cases h⟩⟩
+  · exact ⟨⟨fun _ => rfl, fun _ => concurrent_lookup_linearizable_fixed⟩,
+           ⟨fun _ => rfl, fun _ => concurrent_nodes_linearizable_fixed⟩⟩
+
+/-- running alone, both section lists of `GET /lookup` give the sequential answer (`qLookup` is a function of
+`lookupDB`: `Nsq.Proofs.RegistrySched.lookup_answer_of_obs`) -/
+theorem lookup_sections_compose (atomic : Bool) (db : DB) (t : Name) :
+    runSecsO (db, LookupObs.init) (lookupSecs atomic t) = (db, lookupDB db t) :=
+  Nsq.Proofs.RegistrySched.lookup_sections_compose atomic db t
+
+/-- non-vacuity: four schedules of one writer call with the three-section reader, two with the one-section reader; the
+witness registry answers `200 channels [c]` before and `404` after the deletion; the non-atomic `/nodes` sections
+running alone compute `nodesDB` on the witness registry -/
+example : (interleave [wsec (α := LookupObs) (fun db => deleteTopicDB db [116])] (lookupSecs false [116])).length = 4 ∧
+    (interleave [wsec (α := LookupObs) (fun db => deleteTopicDB db [116])] (lookupSecs true [116])).length = 2 := by decide
+example : lookupDB (createChannelDB [] [116] [99]) [116] = ⟨true, [[99]], []⟩ ∧
+    lookupDB (deleteTopicDB (createChannelDB [] [116] [99]) [116]) [116] = ⟨false, [], []⟩ := by decide
+example : (runSecsO ([(clientKey, [(1, fresh), (3, fresh)]), (topicKey [116], [(1, fresh), (3, fresh)])], NodesObs.init)
+      (nodesSecs false [1, 3])).2 =
+    nodesDB [(clientKey, [(1, fresh), (3, fresh)]), (topicKey [116], [(1, fresh), (3, fresh)])] := by decide
 
 /-- The provable part: when the two calls do not overlap (any serial order) the refinement
 theorems apply — `refines_run` is exactly that statement for histories of any length. With
